@@ -163,6 +163,40 @@ def snap_modules(exclude_constants=True):
     return out
 
 
+def snap_process():
+    """process-wide interpreter state that a library call has no business changing: warning filters, decimal context, numpy
+    error state and print options, locale, working directory, TZ, recursion limit, switch interval, sys.path, signal handlers"""
+    import decimal
+    import locale
+    import os
+    import signal
+    import warnings
+    import numpy as np
+    ctx = decimal.getcontext()
+    out = {
+        'warnings.filters': tuple((f[0], getattr(f[1], 'pattern', f[1]), getattr(f[2], '__name__', f[2]), getattr(f[3], 'pattern', f[3]), f[4]) for f in warnings.filters),
+        'warnings.showwarning': getattr(warnings.showwarning, '__qualname__', repr(warnings.showwarning)),
+        'decimal': (ctx.prec, ctx.rounding, ctx.Emin, ctx.Emax, ctx.capitals, ctx.clamp, tuple(sorted(str(t) for t, v in ctx.traps.items() if v))),
+        'np.geterr': tuple(sorted(np.geterr().items())),
+        'np.printoptions': tuple(sorted((k, repr(v)) for k, v in np.get_printoptions().items())),
+        'locale': locale.setlocale(locale.LC_ALL),
+        'cwd': os.getcwd(),
+        'TZ': os.environ.get('TZ'),
+        'environ_keys': tuple(sorted(os.environ)),
+        'recursionlimit': sys.getrecursionlimit(),
+        'switchinterval': sys.getswitchinterval(),
+        'sys.path': tuple(sys.path),
+        'sigalrm': repr(signal.getsignal(signal.SIGALRM))[:60] if hasattr(signal, 'SIGALRM') else None,
+        'float_repr_style': sys.float_repr_style,
+        'trace': sys.gettrace() is None,
+    }
+    return out
+
+
+def diff_process(a, b):
+    return sorted(k for k in a if a[k] != b.get(k))
+
+
 def diff_modules(a, b):
     """names of modules whose data snapshot differs, with the differing keys"""
     out = {}
